@@ -253,7 +253,9 @@ func (relay *Relay) sendMsgWithTimeout(
 	conn *websocket.Conn,
 	msg []byte,
 ) error {
-	if relay.opt.PingDuration > 0 {
+	// The write deadline must not depend on whether pings are enabled: with
+	// PingDuration == 0 a peer that stopped reading was never dropped.
+	if relay.opt.SendTimeout > 0 {
 		var cancel context.CancelFunc
 		ctx, cancel = context.WithTimeout(ctx, relay.opt.SendTimeout)
 		defer cancel()
